@@ -91,6 +91,7 @@ class Tr(pyrx.ClassTranslator):
         for o in opaque:
             env.v[o] = o
         kept = []
+        seen_bind = set()
         dead = set()          # names assigned only by skipped bracket-preparation code
         for st in fn.body:
             if isinstance(st, ast.Expr) and isinstance(st.value, ast.Constant):
@@ -101,6 +102,7 @@ class Tr(pyrx.ClassTranslator):
                 tg = st.targets[0]
                 src = ast.unparse(st)
                 if src in bind:
+                    seen_bind.add(src)
                     continue
                 if isinstance(tg, ast.Attribute) and isinstance(tg.value, ast.Name) and \
                         tg.value.id == "self" and tg.attr in skip_assign:
@@ -117,6 +119,9 @@ class Tr(pyrx.ClassTranslator):
                 self.error_exits.append(ast.unparse(st.test))
                 continue
             kept.append(st)
+        if seen_bind != set(bind):
+            raise TranslateError("%s: expected statement(s) %s not found" % (
+                method, sorted(set(bind) - seen_bind)))
         # dead-name check: kept code must not read a name whose only definitions were skipped
         defined = set(env.v) | {x for names in bind.values() for x in names}
         for st in kept:
@@ -219,6 +224,28 @@ class Tr(pyrx.ClassTranslator):
         return "Definition %s (e : %senv) : Prop := %s e = %s." % (
             coq_name, self.prefix, self.an(attr), rhs)
 
+    def branch_test(self, method, callee, coq_name, params):
+        """The test of the top-level `if` of `method` whose body hands over to
+        self.<callee>(...) (which family of solutions is computed), as a boolean."""
+        fn = self.fn.get(method)
+        found = []
+        for st in fn.body:
+            if isinstance(st, ast.If) and any(
+                    isinstance(n, ast.Call) and isinstance(n.func, ast.Attribute) and
+                    n.func.attr == callee for b in st.body for n in ast.walk(b)):
+                found.append(st)
+        if len(found) != 1:
+            raise TranslateError("%s: expected exactly one top-level `if` dispatching to %s"
+                                 % (method, callee))
+        env = Env()
+        for p in params:
+            env.v[p] = p
+        t = self.test(found[0].test, env)
+        self.spans[coq_name] = (found[0].lineno, found[0].lineno,
+                                pyrx._sha(ast.unparse(found[0].test)))
+        return "Definition %s (e : %senv) %s : bool :=\n  if %s then true else false." % (
+            coq_name, self.prefix, " ".join("(%s : R)" % p for p in params), t)
+
     def local_formula(self, method, local, coq_name, params):
         """The right-hand side of the (single) assignment `local = expr` in `method`, as a
         function of `params` (names free in expr)."""
@@ -287,7 +314,7 @@ def _slice(stmts):
 
 
 # ---------------------------------------------------------------------------------------
-H_ATTRS = ["Tnucl"]
+H_ATTRS = ["Tnucl", "vJ"]
 H_EXT = [Pattern("self.thermodynamics.%s(_0)" % f, f, "R -> R")
          for f in ("pHighT", "pLowT", "eHighT", "eLowT", "wHighT", "wLowT", "dpLowT",
                    "deLowT", "csqLowT", "csqHighT")]
@@ -319,12 +346,13 @@ def generate_hydro(src):
     defs.append(d)
     d, _ = tr.tail("findJouguetVelocity", "vJ_of_tm", opaque=["rootResult", "tmSol"])
     defs.append(d)
+    defs.append(tr.branch_test("findMatching", "matchDeton", "is_detonation", ["vwTry"]))
     out = [pyrx.COQ_PRELUDE, "(* generated from src/WallGo/hydrodynamics.py *)",
            tr.header()] + defs
     return "\n".join(out) + "\n", tr
 
 
-T_ATTRS = ["cb2", "cs2", "alN", "psiN", "cb", "cs", "wN", "pN", "Tnucl", "nu", "mu"]
+T_ATTRS = ["cb2", "cs2", "alN", "psiN", "cb", "cs", "wN", "pN", "Tnucl", "nu", "mu", "vJ"]
 T_EXT = [Pattern("self._findTm(_0, _1, _2)", "t_findTm", "R -> R -> R -> R")]
 
 
@@ -338,6 +366,8 @@ def generate_template(src):
     defs.append(tr.method("detonationVAndT"))
     defs.append(tr.method("getVp"))
     defs.append(tr.local_formula("findMatching", "alp", "t_alpha_plus", ["vp", "vm"]))
+    defs.append(tr.local_formula("findMatching", "vm", "t_vm_of_vw", ["vw"]))
+    defs.append(tr.branch_test("findMatching", "detonationVAndT", "t_is_detonation", ["vw"]))
     for a in ("cb", "cs", "nu", "mu"):
         defs.append(tr.init_relation(a, "t_init_" + a))
     out = [pyrx.COQ_PRELUDE, "(* generated from src/WallGo/hydrodynamicsTemplateModel.py *)",
